@@ -17,7 +17,7 @@ from ..models import quiet
 
 ID = 'C13'
 RULE = ('history of 3-6 estimate calls on one FactoredInference (warm_start off) with measurement sets that grow / shrink / '
-        'are disjoint, totals given or None, solver per call, options dict explicit or omitted, callbacks present or absent, '
+        'are disjoint or carry no information (all-zero queries: the solver returns at once), totals given or None, solver per call, options dict explicit or omitted, callbacks present or absent, '
         'log on/off, structural zeros, queries and synthetic_data() on earlier models interleaved; plus warm-start histories '
         'judged against the certified optimum; distinct = content hash; non-trivial = at least 2 calls')
 ANCHORS = ['FactoredInference.estimate', 'FactoredInference._setup', 'FactoredInference.fix_measurements',
@@ -42,12 +42,16 @@ def gen_case(rng, tier, idx):
     calls = []
     cur = [0]
     for c in range(ncalls):
+        blank = False
         if kind == 'warm':
             # grown or changed lists, as the adaptive mechanisms produce them
             if c > 0:
                 cur = sorted(set(cur + [int(rng.randint(len(pool)))])) if rng.rand() < 0.7 else [int(i) for i in rng.permutation(len(pool))[:2]]
         else:
             how = gen.pick(rng, ['grow', 'shrink', 'disjoint', 'same', 'random'])
+            blank = bool(c > 0 and rng.rand() < 0.2)
+            if blank:
+                how = 'same'    # same projections as the call before, but nothing to learn from: the solver returns at once
             if how == 'grow':
                 cur = sorted(set(cur + [int(rng.randint(len(pool)))]))
             elif how == 'shrink' and len(cur) > 1:
@@ -57,7 +61,7 @@ def gen_case(rng, tier, idx):
                 cur = rest[:max(1, len(rest) // 2)] or cur
             elif how == 'random':
                 cur = [int(i) for i in rng.permutation(len(pool))[:int(rng.randint(1, len(pool) + 1))]]
-        calls.append(dict(idx=list(cur), solver=gen.pick(rng, ['MD', 'MD', 'RDA', 'IG']),
+        calls.append(dict(idx=list(cur), blank=bool(kind == 'history' and blank), solver=gen.pick(rng, ['MD', 'MD', 'RDA', 'IG']),
                           total=(None if rng.rand() < 0.4 else float(gen.pick(rng, [N, 2 * N, 7.0]))),
                           options=gen.pick(rng, ['omitted', 'omitted', 'empty', 'stepsize']),
                           callback=bool(rng.rand() < 0.3),
@@ -145,6 +149,12 @@ def run_case(case, ctx):
     for k, call in enumerate(case['calls']):
         ctx.tag('solver:' + call['solver'])
         ms = [pool_tuples[i] for i in call['idx']]          # caller-owned list (arrays shared across calls, as a caller would)
+        if call.get('blank'):
+            # an uninformative call on the same projections: all-zero queries answered by zeros (mirror descent sees a
+            # loss of exactly 0 and returns before its first iteration)
+            ms = [(np.zeros((1, int(np.prod([shape[attrs.index(a)] for a in t[3]])))), np.zeros(1), 1.0, t[3]) for t in ms]
+            call = dict(call, solver='MD', options='omitted', callback=False)   # no iteration, so no callback either
+            ctx.tag('blank_call')
         before = digest_measurements(ms)
         zeros_before = repr(zeros_caller)
         kwargs = {}
@@ -196,6 +206,8 @@ def run_case(case, ctx):
                 # calculate_many_marginals documents that it (re)populates the cache; restore what estimate() stored
                 if saved is not None:
                     mm.marginals = saved
+                elif hasattr(mm, 'marginals'):
+                    del mm.marginals        # a model returned before the first iteration has no stored marginals
         # (b) every model handed back earlier still answers the same
         for j, (mod, s0) in enumerate(returned):
             ok, why = same_snapshot(s0, snapshot(mod, attrs), 0)
